@@ -378,13 +378,87 @@ def shard(ctx: Ctx, sh: int, nshards: int, n: int) -> Stats:
     return st
 
 
+META_STATUS_MEMBERS = ["DRAFT", "ACTIVE", "DEPRECATED"]
+META_STATUS_VALUES = ["draft", "Draft", "DRAFT", "dRaFt", "dra", "dep", "act", "Dr", "d", "A", "retired", " draft", "draft ", "active", "Deprecated", "DEPRECATE",
+                      "", "ACTIVE ", "deprecated_", "draftdraft", "ACTIV"]
+
+
+def meta_status_one(v: str, others: bool, root: str):
+    """The packaged META schema (ENUM on META.STATUS) through octave_validate(fix) and octave_write(lenient): META.STATUS may
+    change only to its unique case-insensitive member, with one ENUM_CASEFOLD REPAIR record; everything else stays."""
+    from octave_mcp import parse
+
+    fails = []
+    text = ("===D===\nMETA:\n  TYPE::T\n  VERSION::\"1.0\"\n  STATUS::" + render.q(v) + ("\n  OWNER::" + render.q(v) if others else "") + "\nBODY:\n  STATUS::"
+            + render.q(v) + "\n===END===\n")
+    ci = [m for m in META_STATUS_MEMBERS if m.lower() == v.lower()]
+    allowed = {v} | ({ci[0]} if len(ci) == 1 else set())
+
+    def judge(view, canon, log):
+        try:
+            d = parse(canon)
+        except Exception as e:
+            fails.append((f"C11:unlisted:{view}:meta-status:unreadable", f"{e} | {canon!r}"))
+            return
+        got = d.meta.get("STATUS")
+        if got not in allowed:
+            fails.append((f"C11:unlisted:{view}:meta-status-replaced", f"{view}: META.STATUS {v!r} became {got!r}; the only permitted change is to the unique "
+                          f"case-insensitive member {ci} | text={text!r}"))
+        if others and d.meta.get("OWNER") != v:
+            fails.append((f"C11:unlisted:{view}:meta-other-field-changed", f"{view}: META.OWNER {v!r} became {d.meta.get('OWNER')!r}"))
+        folds = [(b, a) for r_, b, a in log if r_ == "ENUM_CASEFOLD"]
+        if got != v and got in allowed and (v, got) not in folds:
+            fails.append((f"C11:unlisted:{view}:meta-status-change-not-logged", f"{view}: META.STATUS {v!r}->{got!r} but the ENUM_CASEFOLD records are {folds} | text={text!r}"))
+        if got == v and any(f[0] == v and f[1] != v for f in folds) and parse(canon).sections and False:
+            pass
+
+    r = tools.validate(content=text, schema="META", fix=True)
+    if r.get("status") == "success":
+        judge("validate", r["canonical"], [(x.get("rule_id"), x.get("before"), x.get("after")) for x in (r.get("repairs") or []) if "rule_id" in x])
+    r0 = tools.validate(content=text, schema="META", fix=False)
+    if r0.get("status") == "success":
+        try:
+            if parse(r0["canonical"]).meta.get("STATUS") != v:
+                fails.append(("C11:unlisted:validate:meta-status:fix-off-changed", f"fix=false changed META.STATUS {v!r} | text={text!r}"))
+        except Exception:
+            pass
+    p = os.path.join(root, "ms.oct.md")
+    if os.path.exists(p):
+        os.unlink(p)
+    w = tools.write(target_path=p, content=text, schema="META", lenient=True)
+    if w.get("status") == "success":
+        judge("write", open(p, encoding="utf-8", newline="").read(), [(c.get("code"), c.get("before"), c.get("after")) for c in (w.get("corrections") or [])])
+    return fails
+
+
+def shard_meta(ctx: Ctx, sh: int, nshards: int) -> Stats:
+    st = Stats()
+    with scratch_dir() as root:
+        k = 0
+        for v in META_STATUS_VALUES:
+            for others in (False, True):
+                k += 1
+                if k % nshards != sh:
+                    continue
+                fails = meta_status_one(v, others, root)
+                st.case({"meta_status": v, "other_fields": others}, nontrivial=v.upper().strip() in META_STATUS_MEMBERS or any(m.startswith(v.upper()) for m in META_STATUS_MEMBERS if v),
+                        labels=["meta_status_case"], key=(v, others))
+                for sig, det in fails:
+                    st.fail(sig, {"meta_status": v, "others": others}, det)
+    return st
+
+
 def check_case(case) -> list[Failure]:
     with scratch_dir() as root:
+        if "meta_status" in case:
+            return [Failure(s, case, d) for s, d in meta_status_one(case["meta_status"], case.get("others", False), root)]
         fails, _ = check(case, root)
     return [Failure(s, case, d) for s, d in fails]
 
 
 def shrink_candidates(case):
+    if "meta_status" in case:
+        return
     for i in range(len(case["assigns"])):
         if len(case["assigns"]) > 1:
             yield {**case, "assigns": case["assigns"][:i] + case["assigns"][i + 1:]}
@@ -398,4 +472,6 @@ def shrink_candidates(case):
 
 
 def run(ctx: Ctx) -> Stats:
-    return run_sharded(shard, ctx, extra=(ctx.pick(1200, 10000),))
+    st = run_sharded(shard, ctx, extra=(ctx.pick(1200, 10000),))
+    st.merge(run_sharded(shard_meta, ctx))
+    return st
